@@ -261,7 +261,7 @@ func simpleProgram(n *node) string {
 const limbs = 16 // 1024 bits: more than any accepted untyped integer constant (512) or generated floating-point constant has
 
 // program declares the constant and prints it: a typed or boolean constant as it is, an untyped
-// numeric constant as its sign and the 64-bit limbs (two's complement) of c*den, where den is the
+// numeric constant as the 64-bit limbs (two's complement, so the sign is the top bit) of c*den, where den is the
 // denominator of the reference's value (1 for integers): an untyped floating-point constant that is
 // an integer can be shifted, which gives its exact digits.
 func program(n *node, sc scale) string {
@@ -272,7 +272,6 @@ func program(n *node, sc scale) string {
 		if den != nil && den.Cmp(big.NewInt(1)) != 0 {
 			scaled = "(" + expr + " * " + den.String() + ")" // an integer when the part is the reference's num/den
 		}
-		b.WriteString("\tprintln(" + expr + " < 0)\n")
 		for i := 0; i < limbs; i++ {
 			fmt.Fprintf(&b, "\tprintln(uint64((%s >> %d) & 0xFFFFFFFFFFFFFFFF))\n", scaled, 64*i)
 		}
@@ -366,15 +365,15 @@ func runScriggo(n *node, sc scale) (o outcome) {
 		return outcome{accepted: true, canon: fmt.Sprintf("ok num %T %v/1", vals[0], vals[0])}
 	}
 	read := func(vals []any, den *big.Int) (*big.Rat, bool) {
-		neg, ok := vals[0].(bool)
-		if !ok {
-			return nil, false
-		}
 		v := new(big.Int)
-		for i := limbs; i >= 1; i-- {
+		neg := false
+		for i := limbs - 1; i >= 0; i-- {
 			l, ok := vals[i].(uint64)
 			if !ok {
 				return nil, false
+			}
+			if i == limbs-1 {
+				neg = l>>63 == 1 // two's complement: the limbs hold far fewer bits than they have room for
 			}
 			v.Lsh(v, 64)
 			v.Or(v, new(big.Int).SetUint64(l))
@@ -384,20 +383,20 @@ func runScriggo(n *node, sc scale) (o outcome) {
 		}
 		return new(big.Rat).SetFrac(v, den), true
 	}
-	want := limbs + 1
+	want := limbs
 	if sc.cplx {
 		want *= 2
 	}
 	if len(vals) != want {
 		return outcome{canon: "run-error", detail: fmt.Sprint("printed ", vals)}
 	}
-	re, ok := read(vals[:limbs+1], sc.re)
+	re, ok := read(vals[:limbs], sc.re)
 	if !ok {
 		return outcome{canon: "run-error", detail: fmt.Sprint("printed ", vals)}
 	}
 	canon := "ok num untyped " + ratString(re)
 	if sc.cplx {
-		im, ok := read(vals[limbs+1:], sc.im)
+		im, ok := read(vals[limbs:], sc.im)
 		if !ok {
 			return outcome{canon: "run-error", detail: fmt.Sprint("printed ", vals)}
 		}
@@ -508,26 +507,36 @@ func runGoTypes(src string) outcome {
 // them) the reference is goEval: the Go specification's exact arithmetic by math/big.
 
 type goVal struct {
-	typ  string   // "untyped", "untyped-rune", "untyped-float", kind name, "bool"
-	v    *big.Rat // numeric value
+	typ  string   // "untyped", "untyped-rune", "untyped-float", "untyped-complex", kind name, "bool"
+	v    *big.Rat // numeric value (real part)
+	im   *big.Rat // imaginary part (nil = 0)
 	b    bool
 	bad  bool // rejected
 	minq bool // a division MinInt64 / -1 was evaluated below (go/constant's own defect)
 	wide bool // some value below is not a binary fraction with a 512-bit mantissa: a big.Float would round it
 }
 
+func (g goVal) imag() *big.Rat {
+	if g.im == nil {
+		return new(big.Rat)
+	}
+	return g.im
+}
+
+func (g goVal) isReal() bool { return g.imag().Sign() == 0 }
+
 func fitsKind(k string, v *big.Int) bool {
 	lo, hi := kindRange(k)
 	return lo.Cmp(v) <= 0 && v.Cmp(hi) <= 0
 }
 
-var untypedRank = map[string]int{"untyped": 0, "untyped-rune": 1, "untyped-float": 2}
+var untypedRank = map[string]int{"untyped": 0, "untyped-rune": 1, "untyped-float": 2, "untyped-complex": 3}
 
 func isUntyped(t string) bool { _, ok := untypedRank[t]; return ok }
 
 func goCheck(typ string, v *big.Rat) bool {
 	switch typ {
-	case "untyped-float":
+	case "untyped-float", "untyped-complex":
 		return true
 	case "untyped", "untyped-rune":
 		return v.IsInt() && v.Num().BitLen() <= 512
@@ -552,7 +561,7 @@ var minI64 = big.NewInt(-9223372036854775808)
 
 func goEval(n *node) (r goVal) {
 	defer func() {
-		if !r.bad && r.typ != "bool" && !rep512(r.v) {
+		if !r.bad && r.typ != "bool" && (!rep512(r.v) || !rep512(r.imag())) {
 			r.wide = true
 		}
 	}()
@@ -567,9 +576,28 @@ func goEval(n *node) (r goVal) {
 		return goVal{typ: "untyped-rune", v: new(big.Rat).SetInt(n.n)}
 	case "F":
 		return goVal{typ: "untyped-float", v: n.q}
+	case "I":
+		return goVal{typ: "untyped-complex", v: new(big.Rat), im: n.q}
+	case "RE", "IM":
+		a := goEval(n.a)
+		if a.bad || !isUntyped(a.typ) {
+			return rej(a.minq, a.wide)
+		}
+		v := a.v
+		if n.tag == "IM" {
+			v = a.imag()
+		}
+		return goVal{typ: "untyped-float", v: v, minq: a.minq, wide: a.wide}
+	case "CX":
+		a, b := goEval(n.a), goEval(n.b)
+		minq, wide := a.minq || b.minq, a.wide || b.wide
+		if a.bad || b.bad || !isUntyped(a.typ) || !isUntyped(b.typ) || !a.isReal() || !b.isReal() {
+			return rej(minq, wide)
+		}
+		return goVal{typ: "untyped-complex", v: a.v, im: b.v, minq: minq, wide: wide}
 	case "C":
 		a := goEval(n.a)
-		if a.bad || a.typ == "bool" || !a.v.IsInt() || !fitsKind(n.op, a.v.Num()) {
+		if a.bad || a.typ == "bool" || !a.isReal() || !a.v.IsInt() || !fitsKind(n.op, a.v.Num()) {
 			return rej(a.minq, a.wide)
 		}
 		return goVal{typ: n.op, v: a.v, minq: a.minq, wide: a.wide}
@@ -578,14 +606,16 @@ func goEval(n *node) (r goVal) {
 		if a.bad || a.typ == "bool" {
 			return rej(a.minq, a.wide)
 		}
-		v := new(big.Rat)
+		v, im := new(big.Rat), new(big.Rat)
 		switch n.op {
 		case "plus":
 			v.Set(a.v)
+			im.Set(a.imag())
 		case "neg":
 			v.Neg(a.v)
+			im.Neg(a.imag())
 		case "compl":
-			if a.typ == "untyped-float" {
+			if a.typ == "untyped-float" || a.typ == "untyped-complex" {
 				return rej(a.minq, a.wide)
 			}
 			if strings.HasPrefix(a.typ, "uint") {
@@ -598,7 +628,7 @@ func goEval(n *node) (r goVal) {
 		if !goCheck(a.typ, v) {
 			return rej(a.minq, a.wide)
 		}
-		return goVal{typ: a.typ, v: v, minq: a.minq, wide: a.wide}
+		return goVal{typ: a.typ, v: v, im: im, minq: a.minq, wide: a.wide}
 	}
 	a, b := goEval(n.a), goEval(n.b)
 	minq, wide := a.minq || b.minq, a.wide || b.wide
@@ -606,7 +636,7 @@ func goEval(n *node) (r goVal) {
 		return rej(minq, wide)
 	}
 	if n.tag == "SHL" || n.tag == "SHR" {
-		if !a.v.IsInt() || !b.v.IsInt() || b.v.Sign() < 0 || b.v.Num().Cmp(big.NewInt(1074)) > 0 {
+		if !a.isReal() || !b.isReal() || !a.v.IsInt() || !b.v.IsInt() || b.v.Sign() < 0 || b.v.Num().Cmp(big.NewInt(1074)) > 0 {
 			return rej(minq, wide)
 		}
 		v := new(big.Int)
@@ -616,7 +646,7 @@ func goEval(n *node) (r goVal) {
 			v.Rsh(a.v.Num(), uint(b.v.Num().Uint64()))
 		}
 		typ := a.typ
-		if typ == "untyped-float" {
+		if typ == "untyped-float" || typ == "untyped-complex" {
 			typ = "untyped"
 		}
 		if !goCheck(typ, new(big.Rat).SetInt(v)) {
@@ -632,22 +662,56 @@ func goEval(n *node) (r goVal) {
 		}
 	case isUntyped(a.typ):
 		typ = b.typ
-		if !a.v.IsInt() || !fitsKind(typ, a.v.Num()) {
+		if !a.isReal() || !a.v.IsInt() || !fitsKind(typ, a.v.Num()) {
 			return rej(minq, wide)
 		}
 	case isUntyped(b.typ):
-		if !b.v.IsInt() || !fitsKind(typ, b.v.Num()) {
+		if !b.isReal() || !b.v.IsInt() || !fitsKind(typ, b.v.Num()) {
 			return rej(minq, wide)
 		}
 	case a.typ != b.typ:
 		return rej(minq, wide)
 	}
 	if n.tag == "Q" {
+		if typ == "untyped-complex" {
+			eq := a.v.Cmp(b.v) == 0 && a.imag().Cmp(b.imag()) == 0
+			switch n.op {
+			case "eq":
+				return goVal{typ: "bool", b: eq, minq: minq, wide: wide}
+			case "ne":
+				return goVal{typ: "bool", b: !eq, minq: minq, wide: wide}
+			}
+			return rej(minq, wide)
+		}
 		c := a.v.Cmp(b.v)
 		return goVal{typ: "bool", b: map[string]bool{"eq": c == 0, "ne": c != 0, "lt": c < 0, "le": c <= 0, "gt": c > 0, "ge": c >= 0}[n.op], minq: minq, wide: wide}
 	}
-	v := new(big.Rat)
-	if typ == "untyped-float" {
+	v, im := new(big.Rat), new(big.Rat)
+	switch typ {
+	case "untyped-complex":
+		ar, ai, br, bi := a.v, a.imag(), b.v, b.imag()
+		mul := func(x, y *big.Rat) *big.Rat { return new(big.Rat).Mul(x, y) }
+		switch n.op {
+		case "add":
+			v.Add(ar, br)
+			im.Add(ai, bi)
+		case "sub":
+			v.Sub(ar, br)
+			im.Sub(ai, bi)
+		case "mul":
+			v.Sub(mul(ar, br), mul(ai, bi))
+			im.Add(mul(ai, br), mul(ar, bi))
+		case "quo":
+			s := new(big.Rat).Add(mul(br, br), mul(bi, bi))
+			if s.Sign() == 0 {
+				return rej(minq, wide)
+			}
+			v.Quo(new(big.Rat).Add(mul(ar, br), mul(ai, bi)), s)
+			im.Quo(new(big.Rat).Sub(mul(ai, br), mul(ar, bi)), s)
+		default:
+			return rej(minq, wide)
+		}
+	case "untyped-float":
 		switch n.op {
 		case "add":
 			v.Add(a.v, b.v)
@@ -663,7 +727,7 @@ func goEval(n *node) (r goVal) {
 		default:
 			return rej(minq, wide)
 		}
-	} else {
+	default:
 		if n.op == "quo" && a.v.Num().Cmp(minI64) == 0 && b.v.Num().Cmp(big.NewInt(-1)) == 0 {
 			minq = true
 		}
@@ -676,7 +740,7 @@ func goEval(n *node) (r goVal) {
 	if !goCheck(typ, v) {
 		return rej(minq, wide)
 	}
-	return goVal{typ: typ, v: v, minq: minq, wide: wide}
+	return goVal{typ: typ, v: v, im: im, minq: minq, wide: wide}
 }
 
 func (g goVal) outcome() outcome {
@@ -685,6 +749,8 @@ func (g goVal) outcome() outcome {
 		return outcome{canon: "err", detail: "goEval (math/big)"}
 	case g.typ == "bool":
 		return outcome{accepted: true, canon: fmt.Sprintf("ok bool %v", g.b), detail: "goEval (math/big)"}
+	case g.typ == "untyped-complex":
+		return outcome{accepted: true, canon: "ok num " + g.typ + " " + ratString(g.v) + " " + ratString(g.imag()), detail: "goEval (math/big)"}
 	}
 	return outcome{accepted: true, canon: "ok num " + g.typ + " " + ratString(g.v), detail: "goEval (math/big)"}
 }
@@ -974,6 +1040,106 @@ func directedMixed() []*node {
 	return out
 }
 
+// kindMatrix: every binary operator, comparison and shift on every ordered pair of constant-kind
+// exemplars: integer, rune, floating-point and complex constants, including the floating-point and complex
+// constants whose value is an integer and which Scriggo holds as integer constants (results of real, imag
+// and of complex arithmetic on integer parts), plus the builtins real, imag, complex on every exemplar.
+func kindMatrix() []*node {
+	I := func(v int64) *node { return litI(v) }
+	add := func(a, b *node) *node { return &node{tag: "B", op: "add", a: a, b: b} }
+	re := func(a *node) *node { return &node{tag: "RE", a: a} }
+	im := func(a *node) *node { return &node{tag: "IM", a: a} }
+	cx := func(a, b *node) *node { return &node{tag: "CX", a: a, b: b} }
+	ex := []func() *node{
+		func() *node { return I(7) },                                  // int
+		func() *node { return I(2) },                                  // int
+		func() *node { return I(0) },                                  // int
+		func() *node { return &node{tag: "U", op: "neg", a: I(3)} },   // int
+		func() *node { return &node{tag: "R", n: big.NewInt(97)} },    // rune
+		func() *node { return flit("2.0") },                           // float, float64Const
+		func() *node { return flit("0.5") },                           // float
+		func() *node { return flit("1e3") },                           // float
+		func() *node { return flit("0.1") },                           // float, ratConst
+		func() *node { return re(add(I(2), ilit("0"))) },              // float held as int64Const: real(2+0i)
+		func() *node { return re(I(7)) },                              // float held as int64Const: real(7)
+		func() *node { return im(ilit("4")) },                         // float held as int64Const: imag(4i)
+		func() *node { return re(cx(flit("2.5"), I(1))) },             // float: real(complex(2.5, 1))
+		func() *node { return ilit("4") },                             // complex, integer parts
+		func() *node { return add(I(2), ilit("0")) },                  // complex with zero imaginary part
+		func() *node { return cx(I(1), I(2)) },                        // complex(1, 2)
+		func() *node { return cx(flit("0.5"), I(2)) },                 // complex(0.5, 2)
+		func() *node { return &node{tag: "B", op: "quo", a: ilit("4"), b: ilit("2")} }, // 4i/2i: complex, value 2
+		func() *node { return ilit("2.5") },                           // complex, float part
+	}
+	var out []*node
+	for _, op := range cmpOps {
+		for _, z := range []func() *node{func() *node { return ilit("0") }, func() *node { return add(I(2), ilit("0")) }} {
+			out = append(out, &node{tag: "Q", op: op, a: im(cx(I(7), z())), b: I(1)}, &node{tag: "Q", op: op, a: I(1), b: re(cx(z(), I(7)))},
+				&node{tag: "Q", op: op, a: re(cx(I(7), z())), b: flit("0.5")})
+		}
+	}
+	for _, a := range ex {
+		out = append(out, a(), re(a()), im(a()), &node{tag: "U", op: "neg", a: a()}, &node{tag: "U", op: "compl", a: a()},
+			&node{tag: "C", op: "int", a: a()}, &node{tag: "C", op: "uint8", a: a()})
+		for _, b := range ex {
+			for _, op := range arithOps {
+				out = append(out, &node{tag: "B", op: op, a: a(), b: b()})
+			}
+			for _, op := range cmpOps {
+				out = append(out, &node{tag: "Q", op: op, a: a(), b: b()})
+			}
+			out = append(out, &node{tag: "SHL", a: a(), b: b()}, &node{tag: "SHR", a: a(), b: b()}, cx(a(), b()))
+		}
+	}
+	return out
+}
+
+// complexExpr: random expressions over the kind exemplars (no conversions inside: the arguments of
+// real, imag and complex stay untyped).
+func (g *gen) complexExpr(depth int) *node {
+	leaf := func() *node {
+		switch g.r.Intn(6) {
+		case 0:
+			return ilit(g.r.Pick([]string{"0", "1", "2", "4", "0.5", "2.5", "3"}))
+		case 1:
+			return flit(g.r.Pick([]string{"0.0", "0.5", "2.0", "1e3", "3.0", "0.25"}))
+		case 2:
+			return &node{tag: "R", n: big.NewInt(runeLits[g.r.Intn(len(runeLits))])}
+		}
+		v, _ := new(big.Int).SetString(g.r.Pick([]string{"0", "1", "2", "3", "7", "10", "9007199254740993", "18446744073709551617"}), 10)
+		return lit(v)
+	}
+	if depth <= 0 {
+		return leaf()
+	}
+	switch x := g.r.Intn(100); {
+	case x < 12:
+		return leaf()
+	case x < 62:
+		return &node{tag: "B", op: g.r.Pick(mixedArith), a: g.complexExpr(depth - 1), b: g.complexExpr(depth - 1)}
+	case x < 68:
+		return &node{tag: "B", op: g.r.Pick(arithOps), a: g.complexExpr(depth - 1), b: g.complexExpr(depth - 1)}
+	case x < 78:
+		return &node{tag: "RE", a: g.complexExpr(depth - 1)}
+	case x < 86:
+		return &node{tag: "IM", a: g.complexExpr(depth - 1)}
+	case x < 94:
+		return &node{tag: "CX", a: g.complexExpr(depth - 1), b: g.complexExpr(depth - 1)}
+	}
+	return &node{tag: "U", op: g.r.Pick(unOps), a: g.complexExpr(depth - 1)}
+}
+
+func (g *gen) complexRoot() *node {
+	depth := 1 + g.r.Intn(3)
+	switch g.r.Intn(8) {
+	case 0:
+		return &node{tag: "Q", op: g.r.Pick(cmpOps), a: g.complexExpr(depth - 1), b: g.complexExpr(depth - 1)}
+	case 1:
+		return &node{tag: "C", op: g.r.Pick(kinds), a: g.complexExpr(depth - 1)}
+	}
+	return g.complexExpr(depth)
+}
+
 // ---------------------------------------------------------------------------------------------
 // the property's oracle at program level, and shrinking
 
@@ -1077,6 +1243,9 @@ func shrink(root *node, cl string) *node {
 				if p.tag == "R" {
 					cands = append(cands, lit(p.n))
 				}
+				if p.tag == "I" && p.q.Sign() != 0 {
+					cands = append(cands, ilit("0"))
+				}
 				if p.tag == "F" && p.q.IsInt() {
 					cands = append(cands, lit(p.q.Num())) // then shrunk as an integer literal
 				}
@@ -1088,6 +1257,23 @@ func shrink(root *node, cl string) *node {
 				if p.n.Cmp(big.NewInt(1)) > 0 {
 					cands = append(cands, litI(1))
 				}
+			}
+			// canonical forms, so that one defect shrinks to one program: imag → real, operators towards the
+			// first of a fixed list, operands in the order of their protocol text
+			if p.tag == "IM" {
+				cands = append(cands, &node{tag: "RE", a: p.a})
+			}
+			for _, order := range [][]string{{"and", "or", "xor", "andnot", "add", "sub", "mul", "quo", "rem"}, {"lt", "le", "gt", "ge", "eq", "ne"}} {
+				for i, o := range order {
+					if (p.tag == "B" || p.tag == "Q") && o == p.op {
+						for _, o2 := range order[:i] {
+							cands = append(cands, &node{tag: p.tag, op: o2, a: p.a, b: p.b})
+						}
+					}
+				}
+			}
+			if (p.tag == "B" || p.tag == "Q" || p.tag == "CX") && p.b.tokens() < p.a.tokens() {
+				cands = append(cands, &node{tag: p.tag, op: p.op, a: p.b, b: p.a})
 			}
 			done := false
 			for _, c := range cands {
@@ -1547,6 +1733,12 @@ func runC02(c *hx.Ctx) error {
 	}
 	for _, n := range directedMixed() {
 		trees = append(trees, tc{n, "directed-mixed"})
+	}
+	for _, n := range kindMatrix() {
+		trees = append(trees, tc{n, "kind-matrix"})
+	}
+	for i := 0; i < c.N(2000, 30000); i++ {
+		trees = append(trees, tc{g.complexRoot(), "random-complex"})
 	}
 	for i := 0; i < c.N(5000, 80000); i++ {
 		trees = append(trees, tc{g.root(), "random"})
